@@ -94,3 +94,89 @@ def _qfl(bounds, lon, lat):
     if numpy.size(r) != 1 or int(numpy.asarray(r).ravel()[0]) != inside[0]:
         return ['_find_location(%r, %r) = %r, the first containing cell is %d (bounds %r)' % (lon, lat, r, inside[0], b.tolist())]
     return []
+
+
+@oracle('poisson_likelihood_test')
+def _plt(forecast_data, observed_data, num_simulations, random_numbers, normalize_likelihood=False, seed=None,
+         use_observed_counts=True, **_ignored):
+    """contract of _poisson_likelihood_test with injected random numbers and use_observed_counts=True: observed statistic,
+    one simulated statistic per simulation (each the joint log-likelihood of the inverse-CDF catalog of its row of random
+    numbers), quantile = fraction of simulated statistics <= observed"""
+    from csep.core.poisson_evaluations import _poisson_likelihood_test as f
+    F = numpy.asarray(forecast_data, dtype=float)
+    O = numpy.asarray(observed_data, dtype=float)
+    U = numpy.asarray(random_numbers, dtype=float)
+    S = int(num_simulations)
+    if F.shape != O.shape or F.size == 0 or S < 1:
+        return []
+    n = O.sum()
+    if numpy.any(F < 0) or numpy.any(O < 0) or numpy.any(O != numpy.floor(O)) or not (F.sum() > 0):
+        return []
+    n = int(n)
+    seeded = random_numbers is None
+    if seeded:
+        if not isinstance(seed, int) or isinstance(seed, bool) or not (0 <= seed < 2 ** 32):
+            return []
+        out = call(f, F.copy(), O.copy(), num_simulations=S, random_numbers=None, seed=seed,
+                   use_observed_counts=bool(use_observed_counts), verbose=False, normalize_likelihood=bool(normalize_likelihood))
+        again = call(f, F.copy(), O.copy(), num_simulations=S, random_numbers=None, seed=seed,
+                     use_observed_counts=bool(use_observed_counts), verbose=False, normalize_likelihood=bool(normalize_likelihood))
+    else:
+        if not use_observed_counts:
+            return []
+        U = U.reshape(S, -1) if U.size else U.reshape(S, 0)
+        if U.shape != (S, n) or numpy.any(numpy.isnan(U)) or numpy.any(U < 0) or numpy.any(U >= 1):
+            return []
+        out = call(f, F.copy(), O.copy(), num_simulations=S, random_numbers=U.copy(), seed=None, use_observed_counts=True,
+                   verbose=False, normalize_likelihood=bool(normalize_likelihood))
+    if out[0] == 'raise':
+        return ['unexpected exception ' + _exc(out)]
+    qs, obs_ll, sims = out[1]
+    if seeded and (again[0] == 'raise' or list(again[1][2]) != list(sims) or again[1][0] != qs):
+        return ['two runs with seed=%r differ' % seed]
+    Ff, Of = F.ravel().tolist(), O.ravel().tolist()
+    tot = math.fsum(Ff)
+    if normalize_likelihood:
+        b = [x * (n / tot) for x in Ff] if n else [0.0 * x for x in Ff]
+        E = float(n)
+    else:
+        b, E = Ff, tot
+
+    def jll(counts):
+        acc = []
+        for c, r in zip(counts, b):
+            if c != 0:
+                acc.append(c * (math.log(r) if r > 0 else -math.inf) - math.lgamma(c + 1))
+        return math.fsum(x for x in acc if x != -math.inf) - E if -math.inf not in acc else -math.inf
+
+    bad = []
+    exp_obs = jll(Of)
+    if not (obs_ll == exp_obs or close(obs_ll, exp_obs, 1e-9, 1e-9)):
+        bad.append('observed statistic %r, required sum over bins of log Poisson pmf = %r (rates %r, counts %r)' % (obs_ll, exp_obs, b, Of))
+    sims = list(sims)
+    if len(sims) != S:
+        bad.append('%d simulated statistics for %d simulations' % (len(sims), S))
+    else:
+        # inverse-CDF placement of each row
+        W = numpy.cumsum(numpy.asarray(Ff)) / tot
+        for s in (range(S) if not seeded else ()):
+            cnt = [0.0] * len(Ff)
+            ok = True
+            for x in U[s].tolist():
+                k = 0
+                while k < len(Ff) and not (x < W[k]):
+                    k += 1
+                if k >= len(Ff):
+                    ok = False      # float round-off put the last cumulative weight below the draw: outside the model
+                    break
+                cnt[k] += 1
+            if not ok:
+                continue
+            e = jll(cnt)
+            if not (sims[s] == e or close(sims[s], e, 1e-9, 1e-9)):
+                bad.append('simulated statistic %d is %r, the inverse-CDF catalog of its random numbers has %r' % (s, sims[s], e))
+                break
+        le = sum(1 for x in sims if x <= obs_ll)
+        if not close(qs, le / S, 1e-12, 1e-12):
+            bad.append('quantile %r, fraction of simulated statistics <= observed is %r' % (qs, le / S))
+    return bad
